@@ -40,7 +40,7 @@ class Ctx:
         self.assumptions = []
         self.exhaustive = None
         import glob
-        for f in glob.glob(os.path.join(REPLAYS, "%s-*.script" % pid)): os.remove(f)
+        for f in glob.glob(os.path.join(REPLAYS, "%s-*" % pid)): os.remove(f)
     quick = property(lambda self: self.tier == "quick")
     def count(self, k, n=1): self.dist[k] = self.dist.get(k, 0) + n
     def merge_stats(self, st):
